@@ -312,16 +312,22 @@ func genC19(seed uint64, idx int) *plan19 {
 		p.u = newUniverse(r, 3, 1, 2, 2, maxEpoch)
 		forceFirst = false
 		lock := 4
-		p.ops = append(p.ops, ab("put", 0, 0, 0), ab("del", 0, 0, 0), ab("put", lock, 0, 0), ab("put", 1, 0, 0), ab("put", 3, 0, 0))
-		// evacuate every shard but one
-		var srcs []int
-		keep := r.intn(p.n)
+		// object 0 is stored while only shard h accepts writes; it is marked as garbage there
+		// and then locked (the lock reaches every shard)
+		h := r.intn(p.n)
 		for s := 0; s < p.n; s++ {
-			if s != keep {
-				srcs = append(srcs, s)
+			if s != h {
 				p.ops = append(p.ops, ab("mode", s, 1, 0))
 			}
 		}
+		p.ops = append(p.ops, ab("put", 0, 0, 0))
+		for s := 0; s < p.n; s++ {
+			if s != h {
+				p.ops = append(p.ops, ab("mode", s, 0, 0))
+			}
+		}
+		p.ops = append(p.ops, ab("del", 0, 0, 0), ab("put", lock, 0, 0), ab("put", 1, 0, 0), ab("put", 3, 0, 0), ab("mode", h, 1, 0))
+		srcs := []int{h}
 		ev := ab("evac", 0, 0, 0)
 		ev.srcs = srcs
 		p.tail(ev, allIdx(len(p.u.objs)))
